@@ -182,6 +182,14 @@ GEthCall ==
        Push(ReadStep(op, ReadTx(from, to, ops)))
   /\ UNCHANGED <<chain, cur, world, pool, snaps, maxEver, dur, ctr>>
 
+(* call data that costs more than the execution: the estimate's bisection then probes gas limits below the intrinsic cost *)
+LongProg == [i \in 1..180 |-> Sstore(1, 1)]
+GEstimateLong ==
+  /\ Started /\ cur.n = 0
+  /\ \E from \in {RandomElement(Senders)}, op \in {Pick(<<"estimate", "estimate", "ethcall">>)} :
+       Push(ReadStep(op, ReadTx(from, "dead", LongProg)))
+  /\ UNCHANGED <<chain, cur, world, pool, snaps, maxEver, dur, ctr>>
+
 GEthCallCreate ==
   /\ Started /\ cur.n = 0
   /\ \E from \in {RandomElement(Senders)}, ck \in {RandomElement({"cell", "bad"})} :
@@ -306,7 +314,7 @@ Weighted ==
     [] Focus = "proto"  -> GCall \/ GDeploy \/ GFinalise \/ GBad \/ GBad \/ GTransact \/ GLedger \/ GMine
     [] Focus = "pool"   -> GTransact \/ GTransact \/ GTransact \/ GFinalise \/ GFinalise \/ GMine \/ GCall \/ GReorg \/ GClear
     [] Focus = "ledger" -> GLedger \/ GLedger \/ GUserLedger \/ GUserLedger \/ GFinalise \/ GReorg \/ GCommit \/ GCall
-    [] Focus = "reads"  -> GEthCall \/ GEthCall \/ GEthCallCreate \/ GCallMany \/ GCallManyErr \/ GPredicted \/ GPredicted \/ GCall \/ GDeploy \/ GFinalise \/ GFinalise
+    [] Focus = "reads"  -> GEthCall \/ GEthCall \/ GEthCallCreate \/ GEstimateLong \/ GCallMany \/ GCallManyErr \/ GPredicted \/ GPredicted \/ GCall \/ GDeploy \/ GFinalise \/ GFinalise
                              \/ GCommit \/ GReorg \/ GTransact \/ GLedger
     [] Focus = "logs"   -> IF Cardinality(Cells) < 2 THEN (GDeployCell \/ GFinalise)
                            ELSE (GLogCall \/ GLogCall \/ GLogCall \/ GFinalise \/ GFinalise \/ GCommit)
